@@ -169,8 +169,13 @@ unpickled copy of `_last_comp_state`; the pool's REUSE_LAST_STATE_MARKER shortcu
 of the last section).  `PSpec` is the
 PostgreSQL-style session; `PSpec.covers` is the envelope:
 
-* the backend may fail on DDL / alias / config statements, queries and COMMIT
-  (not on START / ROLLBACK / savepoint commands: see the counterexamples below);
+* the backend may fail on DDL / alias / config statements, queries and COMMIT — a failed COMMIT
+  ending the block (`stay = false`) — but not on START / savepoint commands (see the
+  counterexamples below), and not on ROLLBACK or on a COMMIT that leaves the backend in the
+  block (`stay = true`): those detach the compiler's current `Transaction` object from the id
+  the server keeps sending; the spec below says what must happen then (only ROLLBACK / ROLLBACK
+  TO are accepted and they must work), `exDetached*` check it on the model by `decide`, the
+  harness checks it on the real code (corpus/C09/regressions.json), the theorem does not cover it;
 * compilation may fail anywhere;
 * no RELEASE removes a savepoint whose name is also carried by a savepoint that stays.
 
@@ -238,6 +243,36 @@ example : (PSpec.init ⟨1, 2, 3, 4⟩).coversAll exP = true := by decide
 example : ((PSpec.init ⟨1, 2, 3, 4⟩).run exP).2.map (·.cls) =
     [.ok, .ok, .ok, .ok, .ok, .ok, .failed, .rejected, .ok, .ok, .ok, .ok, .rejected] ∧
     ((PSpec.init ⟨1, 2, 3, 4⟩).run exP).1 = PSpec.out ⟨5, 6, 7, 4⟩ := by decide
+
+/-! ### Tested, not proved: COMMIT / ROLLBACK failing while the backend stays in the block
+
+After `ROLLBACK TO a` the server's transaction id is the savepoint's.  The compiler compiles
+COMMIT (or ROLLBACK) — `commit_tx` / `rollback_tx` swap in a fresh implicit `Transaction` — the
+backend fails and stays in the block.  The next `compile_in_tx` must bring the old explicit
+transaction back (`sync_tx → sync_to_savepoint: self._current_tx = sp.tx`): ROLLBACK TO works,
+savepoint/COMMIT/START are refused because the block is aborted, ROLLBACK leaves. -/
+
+def exDetachedCommit : List SEv :=
+  [ { stmt := .start }, { stmt := .declare 1 }, { stmt := .upd (.schema 5 6) }, { stmt := .rollbackTo 1 },
+    { stmt := .upd (.aliases 7) }, { stmt := .commit, bf := true, stay := true },
+    { stmt := .declare 2 }, { stmt := .start }, { stmt := .commit }, { stmt := .rollbackTo 1 },
+    { stmt := .declare 2 }, { stmt := .upd (.config 8) }, { stmt := .commit }, { stmt := .query } ]
+
+def exDetachedRollback : List SEv :=
+  [ { stmt := .start }, { stmt := .declare 1 }, { stmt := .upd (.schema 5 6) }, { stmt := .rollbackTo 1 },
+    { stmt := .upd (.aliases 7) }, { stmt := .rollback, bf := true },
+    { stmt := .declare 2 }, { stmt := .rollbackTo 1 }, { stmt := .upd (.config 8) }, { stmt := .rollback },
+    { stmt := .query } ]
+
+example : agreesAll (Server.runAll (Server.init ⟨1, 2, 3, 4⟩) exDetachedCommit).2
+      ((PSpec.init ⟨1, 2, 3, 4⟩).run exDetachedCommit).2 ∧
+    ((PSpec.init ⟨1, 2, 3, 4⟩).run exDetachedCommit).2.map (·.cls) =
+      [.ok, .ok, .ok, .ok, .ok, .failed, .rejected, .rejected, .rejected, .ok, .ok, .ok, .ok, .ok] ∧
+    ((PSpec.init ⟨1, 2, 3, 4⟩).run exDetachedCommit).1 = PSpec.out ⟨1, 2, 3, 8⟩ := by decide
+
+example : agreesAll (Server.runAll (Server.init ⟨1, 2, 3, 4⟩) exDetachedRollback).2
+      ((PSpec.init ⟨1, 2, 3, 4⟩).run exDetachedRollback).2 ∧
+    ((PSpec.init ⟨1, 2, 3, 4⟩).run exDetachedRollback).1 = PSpec.out ⟨1, 2, 3, 4⟩ := by decide
 
 /-! ### Outside the envelope: counterexamples (each is replayed on the real classes by the
 harness, keys `proto:*`) -/
